@@ -11,6 +11,7 @@ import (
 	pb "github.com/AliceO2Group/Control/core/protos"
 
 	"simrt"
+	"simrt/simsync"
 	"verif/hk"
 	"verif/peers/simmesos"
 )
@@ -66,6 +67,10 @@ type pscenario struct {
 	Tasks  []*ptask         `json:"tasks"`
 	Expect string           `json:"expect"`
 	Result string           `json:"result"`
+	// second round (C13): the environment is destroyed keeping its tasks, a second workflow with the
+	// same templates under other role paths claims them (reuseUnlockedTasks)
+	Reuse   bool   `json:"reuse,omitempty"`
+	Result2 string `json:"result2,omitempty"`
 }
 
 func yamlConstr(ind string, cs []constr) string {
@@ -107,12 +112,17 @@ func bodyPlace(c *hk.Ctx, prop string) {
 	sc := &pscenario{}
 	c.Scenario = sc
 	events = nil
+	sc.Reuse = prop == "C13" && c.W(6, "reuse-round") == 5
+	s.reuse = sc.Reuse
 	viol := func(p, oracle, sig, format string, a ...any) {
 		if p == prop {
 			c.Violate(oracle, sig, format, a...)
 		}
 	}
 
+	// alias-heavy mode (C13): one task per host, equal port ranges everywhere, so that inbound channels
+	// of different tasks get the same port number on different hosts, and many of them claim one alias
+	aliasHeavy := prop == "C13" && c.W(5, "alias-heavy") == 4
 	// ---- agents with attributes, scalar resources near and far from the demand, fragmented ports ----
 	nAgents := 2 + c.W(3, "agents")
 	zones := []string{"a", "b"}
@@ -121,7 +131,9 @@ func bodyPlace(c *hk.Ctx, prop string) {
 		a := &simmesos.Agent{ID: "agent-" + h, Hostname: h, Attributes: map[string]string{
 			"machine_id": h, "zone": zones[c.W(2, "zone")], "kind": []string{"flp", "flp,test", "epn"}[c.W(3, "kind")]},
 			Cpus: []float64{0.45, 1.2, 8}[c.W(3, "cpus")], Mem: []float64{300, 4096}[c.W(2, "mem")]}
-		switch c.W(4, "ports") {
+		switch c.W(5, "ports") {
+		case 4:
+			a.PortsBegin, a.PortsEnd = 9000, 9200 // nothing a control port can be taken from: the task cannot be completed on this offer
 		case 3:
 			a.PortsBegin, a.PortsEnd = 9102, 31000 // has 9103 but not 9100-9101
 		case 0:
@@ -130,6 +142,9 @@ func bodyPlace(c *hk.Ctx, prop string) {
 			a.PortsBegin, a.PortsEnd = 29990, 30012
 		case 2:
 			a.PortsBegin, a.PortsEnd = 9000, 30004
+		}
+		if aliasHeavy {
+			a.Cpus, a.Mem, a.PortsBegin, a.PortsEnd = 1.2, 4096, 9000, 31000
 		}
 		s.mesos.Agents = append(s.mesos.Agents, a)
 		s.consul.Set("o2/hardware/detectors/DET"+fmt.Sprint(i+1)+"/flps/"+h+"/", "")
@@ -168,6 +183,9 @@ func bodyPlace(c *hk.Ctx, prop string) {
 		t := &ptask{Role: fmt.Sprintf("t%d", i), Class: fmt.Sprintf("pc%d", classIdx), Group: sc.Groups[c.W(nGroups, "task-group")].Name,
 			Cpu: []float64{0.1, 0.4, 1}[c.W(3, "want-cpu")], Mem: []float64{64, 256}[c.W(2, "want-mem")], Critical: true}
 		t.path = "wfp." + t.Group + "." + t.Role
+		if aliasHeavy {
+			t.Cpu = 1
+		}
 		if classIdx != i {
 			// same template: same wants, constraints and channels as the first user of the class
 			o := sc.Tasks[classIdx]
@@ -191,6 +209,9 @@ func bodyPlace(c *hk.Ctx, prop string) {
 			ch := &chanSpec{Name: fmt.Sprintf("in%d", b), Type: "pull", Addr: []string{"tcp", "tcp", "ipc"}[c.W(3, "addressing")], Transport: []string{"", "zeromq", "shmem"}[c.W(3, "transport")]}
 			if prop == "C13" && c.W(4, "global") == 3 {
 				ch.Global = []string{"aliasx", "aliasy"}[c.W(2, "alias")]
+			}
+			if aliasHeavy {
+				ch.Addr, ch.Transport, ch.Global = "tcp", "", []string{"", "aliasx"}[c.W(2, "heavy-alias")]
 			}
 			t.Bind = append(t.Bind, ch)
 		}
@@ -328,7 +349,14 @@ func bodyPlace(c *hk.Ctx, prop string) {
 			fmt.Fprintf(&wf, "      - name: filler\n        enabled: \"false\"\n        task:\n          load: %s\n", sc.Tasks[0].Class)
 		}
 	}
-	if err := writeRepo(s.repoDir, map[string]string{"wfp": wf.String()}, classes); err != nil {
+	workflows := map[string]string{"wfp": wf.String()}
+	if sc.Reuse {
+		// same tree under other role paths; a call before DEPLOY keeps the creation busy between its
+		// pre-deployment cleanup and the acquisition of tasks
+		workflows["wfq"] = strings.ReplaceAll(wf.String(), "wfp", "wfq") +
+			"  - name: slowcall\n    call:\n      func: sp.Slow()\n      trigger: before_DEPLOY\n      timeout: 10s\n      critical: false\n"
+	}
+	if err := writeRepo(s.repoDir, workflows, classes); err != nil {
 		c.Violate("setup", "repo", "%v", err)
 		return
 	}
@@ -451,137 +479,179 @@ func bodyPlace(c *hk.Ctx, prop string) {
 	if prop != "C13" {
 		return
 	}
-	dangling, aliasClash := false, false
-	for _, t := range sc.Tasks {
-		for _, ch := range t.Connect {
-			if ch.dangling {
-				dangling = true
-			}
-		}
-	}
-	for _, owners := range aliasOwners {
-		if len(owners) > 1 {
-			aliasClash = true // two inbound channels claim one alias: different endpoints unless both ipc with equal paths (never)
-		}
-	}
-	sc.Expect = fmt.Sprintf("dangling=%v alias-clash=%v", dangling, aliasClash)
-	if (dangling || aliasClash) && err == nil {
-		sig := "dangling-target-accepted"
-		if aliasClash && !dangling {
-			sig = "alias-clash-accepted"
-			sameTaskOnly := true
-			for _, owners := range aliasOwners {
-				for _, o := range owners {
-					if len(owners) > 1 && o != owners[0] {
-						sameTaskOnly = false
+	checkC13 := func(round string, err error, prefix string, since int) {
+		viol := func(p, oracle, sig, format string, a ...any) { viol(p, oracle, sig+round, format, a...) }
+		taskOf := taskOf
+		if round != "" {
+			// second round: only what the core itself reports
+			role2 := map[string]*ptask{}
+			for _, id := range s.mesos.TaskOrder {
+				if gt, gerr := ci.rpc.GetTask(context.Background(), &pb.GetTaskRequest{TaskId: id}); gerr == nil && gt != nil && gt.Task != nil {
+					for _, t := range sc.Tasks {
+						if gt.Task.TaskPath == prefix+strings.TrimPrefix(t.path, "wfp") {
+							role2[id] = t
+						}
 					}
 				}
 			}
-			if sameTaskOnly {
-				sig = "alias-clash-accepted:within-one-task"
+			taskOf = func(st *simmesos.SimTask) *ptask { return role2[st.ID] }
+		}
+		dangling, aliasClash := false, false
+		for _, t := range sc.Tasks {
+			for _, ch := range t.Connect {
+				if ch.dangling {
+					dangling = true
+				}
 			}
 		}
-		viol("C13", "invalid-configuration-rejected", sig, "the workflow has %s but the environment was configured", sc.Expect)
-		return // an invalid configuration has no right endpoints to compare with
-	}
-	if err != nil {
-		if !dangling && !aliasClash && strings.Contains(errStr(err), "channel") {
-			viol("C13", "valid-configuration-accepted", "rejected", "a valid channel configuration was refused: %s", errStr(err))
+		for _, owners := range aliasOwners {
+			if len(owners) > 1 {
+				aliasClash = true // two inbound channels claim one alias: different endpoints unless both ipc with equal paths (never)
+			}
 		}
+		sc.Expect = fmt.Sprintf("dangling=%v alias-clash=%v", dangling, aliasClash)
+		if (dangling || aliasClash) && err == nil {
+			sig := "dangling-target-accepted"
+			if aliasClash && !dangling {
+				sig = "alias-clash-accepted"
+				sameTaskOnly := true
+				for _, owners := range aliasOwners {
+					for _, o := range owners {
+						if len(owners) > 1 && o != owners[0] {
+							sameTaskOnly = false
+						}
+					}
+				}
+				if sameTaskOnly {
+					sig = "alias-clash-accepted:within-one-task"
+				}
+			}
+			viol("C13", "invalid-configuration-rejected", sig, "the workflow has %s but the environment was configured", sc.Expect)
+			return // an invalid configuration has no right endpoints to compare with
+		}
+		if err != nil {
+			if !dangling && !aliasClash && strings.Contains(errStr(err), "channel") {
+				viol("C13", "valid-configuration-accepted", "rejected", "a valid channel configuration was refused: %s", errStr(err))
+			}
+			return
+		}
+		// bind endpoints as told to each binder
+		type bound struct{ host, addr, transport string }
+		binds := map[string]bound{} // role:chan -> endpoint
+		cfg := map[string]map[string]string{}
+		for _, id := range s.mesos.TaskOrder {
+			st := s.mesos.Task(id)
+			pt := taskOf(st)
+			if pt == nil {
+				continue
+			}
+			for _, rc := range st.Commands {
+				if rc.Event == "CONFIGURE" && rc.Seq > since {
+					cfg[pt.Role] = rc.Arguments
+					if round != "" && st.LaunchSeq < since {
+						c.Count("probe.reused_task_configured")
+					}
+				}
+			}
+			args := cfg[pt.Role]
+			if args == nil {
+				continue
+			}
+			for _, b := range pt.Bind {
+				addr := args["chans."+b.Name+".0.address"]
+				if args["chans."+b.Name+".0.method"] != "bind" || addr == "" {
+					viol("C13", "inbound-bound", "not-told-to-bind", "task %s: inbound channel %s is not told to bind (address %q method %q)", pt.Role, b.Name, addr, args["chans."+b.Name+".0.method"])
+					continue
+				}
+				if strings.HasPrefix(addr, "tcp://") {
+					port, _ := strconv.ParseUint(addr[strings.LastIndex(addr, ":")+1:], 10, 64)
+					own := false
+					for _, p := range st.Ports {
+						if p == port {
+							own = true
+						}
+					}
+					if !own {
+						viol("C13", "inbound-bound", "port-not-allocated", "task %s binds %s on %s, a port that was not allocated to it (%v)", pt.Role, b.Name, addr, st.Ports)
+					}
+				}
+				binds[pt.Role+":"+b.Name] = bound{st.Agent.Hostname, addr, args["chans."+b.Name+".0.transport"]}
+			}
+		}
+		for _, t := range sc.Tasks {
+			args := cfg[t.Role]
+			if args == nil {
+				continue
+			}
+			eff := append([]*chanSpec(nil), t.Connect...)
+			for _, g := range sc.Groups {
+				if g.Name != t.Group {
+					continue
+				}
+				for _, gc := range g.Connect {
+					overridden := false
+					for _, own := range t.Connect {
+						if own.Name == gc.Name {
+							overridden = true
+						}
+					}
+					if !overridden {
+						eff = append(eff, gc)
+					}
+				}
+			}
+			for _, ch := range eff {
+				got := args["chans."+ch.Name+".0.address"]
+				if got == "" && !ch.explicit {
+					viol("C13", "outbound-address", "channel-missing", "task %s: outbound channel %s (target %s) is missing from the CONFIGURE arguments", t.Role, ch.Name, ch.Target)
+					continue
+				}
+				if ch.explicit {
+					if got != ch.Target {
+						viol("C13", "explicit-target", "altered", "task %s: explicit target %s was turned into %q", t.Role, ch.Target, got)
+					}
+					continue
+				}
+				b, ok := binds[ch.targetRole+":"+ch.targetChan]
+				if !ok {
+					continue
+				}
+				want := b.addr
+				if strings.HasPrefix(b.addr, "tcp://") {
+					want = "tcp://" + b.host + b.addr[strings.LastIndex(b.addr, ":"):]
+				}
+				if got != want {
+					viol("C13", "outbound-address", "wrong-endpoint", "task %s: outbound channel %s (target %s) is told to connect to %q, the inbound channel %s of %s was bound at %q on host %s", t.Role, ch.Name, ch.Target, got, ch.targetChan, ch.targetRole, b.addr, b.host)
+				}
+				if args["chans."+ch.Name+".0.method"] != "connect" {
+					viol("C13", "outbound-address", "method", "task %s: outbound channel %s has method %q", t.Role, ch.Name, args["chans."+ch.Name+".0.method"])
+				}
+				if gt := args["chans."+ch.Name+".0.transport"]; gt != b.transport {
+					viol("C13", "outbound-transport", "differs-from-inbound", "task %s: outbound channel %s uses transport %q, the inbound side uses %q", t.Role, ch.Name, gt, b.transport)
+				}
+			}
+		}
+	}
+	checkC13("", err, "wfp", 0)
+	if !sc.Reuse || err != nil || c.Violated() || envID == "" {
 		return
 	}
-	_ = envID
-	// bind endpoints as told to each binder
-	type bound struct{ host, addr, transport string }
-	binds := map[string]bound{} // role:chan -> endpoint
-	cfg := map[string]map[string]string{}
-	for _, id := range s.mesos.TaskOrder {
-		st := s.mesos.Task(id)
-		pt := taskOf(st)
-		if pt == nil {
-			continue
+	// the first environment is destroyed keeping its tasks while the second one is being created:
+	// tasks released after the newcomer's pre-deployment cleanup and before its acquisition are claimed
+	since := s.mesos.Seq()
+	var wg simsync.WaitGroup
+	wg.Add(1)
+	c.S.Go("destroy-keeping-tasks", func() {
+		defer wg.Done()
+		if _, derr := ci.rpc.DestroyEnvironment(context.Background(), &pb.DestroyEnvironmentRequest{Id: envID, KeepTasks: true}); derr != nil {
+			c.Logf("destroy keeping the tasks failed: %v", derr)
 		}
-		for _, rc := range st.Commands {
-			if rc.Event == "CONFIGURE" {
-				cfg[pt.Role] = rc.Arguments
-			}
-		}
-		args := cfg[pt.Role]
-		if args == nil {
-			continue
-		}
-		for _, b := range pt.Bind {
-			addr := args["chans."+b.Name+".0.address"]
-			if args["chans."+b.Name+".0.method"] != "bind" || addr == "" {
-				viol("C13", "inbound-bound", "not-told-to-bind", "task %s: inbound channel %s is not told to bind (address %q method %q)", pt.Role, b.Name, addr, args["chans."+b.Name+".0.method"])
-				continue
-			}
-			if strings.HasPrefix(addr, "tcp://") {
-				port, _ := strconv.ParseUint(addr[strings.LastIndex(addr, ":")+1:], 10, 64)
-				own := false
-				for _, p := range st.Ports {
-					if p == port {
-						own = true
-					}
-				}
-				if !own {
-					viol("C13", "inbound-bound", "port-not-allocated", "task %s binds %s on %s, a port that was not allocated to it (%v)", pt.Role, b.Name, addr, st.Ports)
-				}
-			}
-			binds[pt.Role+":"+b.Name] = bound{st.Agent.Hostname, addr, args["chans."+b.Name+".0.transport"]}
-		}
-	}
-	for _, t := range sc.Tasks {
-		args := cfg[t.Role]
-		if args == nil {
-			continue
-		}
-		eff := append([]*chanSpec(nil), t.Connect...)
-		for _, g := range sc.Groups {
-			if g.Name != t.Group {
-				continue
-			}
-			for _, gc := range g.Connect {
-				overridden := false
-				for _, own := range t.Connect {
-					if own.Name == gc.Name {
-						overridden = true
-					}
-				}
-				if !overridden {
-					eff = append(eff, gc)
-				}
-			}
-		}
-		for _, ch := range eff {
-			got := args["chans."+ch.Name+".0.address"]
-			if got == "" && !ch.explicit {
-				viol("C13", "outbound-address", "channel-missing", "task %s: outbound channel %s (target %s) is missing from the CONFIGURE arguments", t.Role, ch.Name, ch.Target)
-				continue
-			}
-			if ch.explicit {
-				if got != ch.Target {
-					viol("C13", "explicit-target", "altered", "task %s: explicit target %s was turned into %q", t.Role, ch.Target, got)
-				}
-				continue
-			}
-			b, ok := binds[ch.targetRole+":"+ch.targetChan]
-			if !ok {
-				continue
-			}
-			want := b.addr
-			if strings.HasPrefix(b.addr, "tcp://") {
-				want = "tcp://" + b.host + b.addr[strings.LastIndex(b.addr, ":"):]
-			}
-			if got != want {
-				viol("C13", "outbound-address", "wrong-endpoint", "task %s: outbound channel %s (target %s) is told to connect to %q, the inbound channel %s of %s was bound at %q on host %s", t.Role, ch.Name, ch.Target, got, ch.targetChan, ch.targetRole, b.addr, b.host)
-			}
-			if args["chans."+ch.Name+".0.method"] != "connect" {
-				viol("C13", "outbound-address", "method", "task %s: outbound channel %s has method %q", t.Role, ch.Name, args["chans."+ch.Name+".0.method"])
-			}
-			if gt := args["chans."+ch.Name+".0.transport"]; gt != b.transport {
-				viol("C13", "outbound-transport", "differs-from-inbound", "task %s: outbound channel %s uses transport %q, the inbound side uses %q", t.Role, ch.Name, gt, b.transport)
-			}
-		}
-	}
+	})
+	simrt.Sleep(time.Duration(c.W(5, "create-after")) * 10 * time.Millisecond)
+	_, err2 := ci.rpc.NewEnvironment(context.Background(), &pb.NewEnvironmentRequest{WorkflowTemplate: "wfq", Vars: map[string]string{}})
+	wg.Wait()
+	sc.Result2 = errStr(err2)
+	simrt.Sleep(5 * time.Second)
+	c.Count("probe.reuse_round")
+	checkC13(":re-used-tasks", err2, "wfq", since)
 }
